@@ -696,7 +696,7 @@ fn json_mismatch_with_slack(a: &Value, b: &Value, sc: &Scale, slack: f64) -> Opt
     if out.is_none() && d > crate::cmp::RATIO_MIN_DEN * sc.e_an * f {
         for k in ["rer", "rer_nrb", "rer_onst"] {
             if let (Some(x), Some(y)) = (a.get(k).and_then(|v| v.as_f64()), b.get(k).and_then(|v| v.as_f64())) {
-                let rtol = crate::cmp::ratio_tol(sc.e_an * f, d, x.abs().max(y.abs()), 0.0011 + slack * f);
+                let rtol = crate::cmp::ratio_tol(sc.e_an * f, d, x.abs().max(y.abs()), 0.0011 + 4.0 * slack * f);
                 if !((x - y).abs() <= rtol) {
                     out = Some(format!("{}: {} vs {} (tol {:e})", k, x, y, rtol));
                 }
